@@ -8,6 +8,10 @@ from vlib import Check, WORK, harness, tlc_trace, tlc_mc, parallel, read_events
 OPNAMES = ["BR", "ADD", "LD", "ST", "JSR", "AND", "LDR", "STR", "RTI", "NOT", "LDI", "STI", "JMP", "STACK", "LEA", "TRAP"]
 
 
+# the thorough tier multiplies its seeded families by this factor (3 by default: every thorough check then takes 3-12 minutes on 16 cores)
+SCALE = max(1, int(os.environ.get("VERIF_SCALE", "3")))
+
+
 def _wpath(name):
     # per-process scratch directory: two checks (or two runs of one check) never share file names
     d = os.path.join(WORK, "p%d" % os.getpid())
@@ -81,7 +85,7 @@ def check_C02(replay=None):
     chk.add_mc(res, "MC_ISA")
 
     # (C) sweep of the real VM
-    states = 6 if thorough else 2
+    states = 4 * SCALE if thorough else 2
     nchunks = 16 if thorough else 8
     jobs = []
     for stack in (1, 0):
@@ -195,14 +199,14 @@ def check_C01(replay=None):
         # phases partition the field sweep: item i goes to phase i % (stride*nphase)
         jobs.append(("fields%d" % ph, ["--fam", "fields", "--stride", stride * nphase, "--phase", ph * stride + (chk.seed % stride), "--seed", chk.seed,
                                       "--layouts", 2 if thorough else 1]))
-    jobs.append(("labels", ["--fam", "labels", "--n", 40 if thorough else 6, "--seed", chk.seed, "--layouts", 2]))
+    jobs.append(("labels", ["--fam", "labels", "--n", 40 * SCALE if thorough else 6, "--seed", chk.seed, "--layouts", 2]))
     jobs.append(("labels_ns", ["--fam", "labels", "--n", 4, "--seed", chk.seed + 1, "--layouts", 1, "--stack", 0]))
     jobs.append(("strings", ["--fam", "strings", "--seed", chk.seed, "--layouts", 1]))
     # .blkw counts around and above 2^15, written in decimal (layout 0) and in a seeded spelling
     jobs.append(("bigblk", ["--fam", "bigblk", "--seed", chk.seed, "--layouts", 3 if thorough else 2]))
     # an accepted source must have the right image - also when it should not have been accepted
     jobs.append(("beyond", ["--fam", "verdict", "--n", 4 if thorough else 1, "--seed", chk.seed + 3, "--layouts", 1]))
-    nrand = 1600 if thorough else 160
+    nrand = 1600 * SCALE if thorough else 160
     for k in range(4):
         jobs.append(("random%d" % k, ["--fam", "random", "--n", nrand // 4, "--seed", chk.seed * 7 + k, "--layouts", 3, "--stack", 1 if k < 3 else 0]))
     traces = _asm_jobs_run(chk, jobs)
@@ -234,7 +238,7 @@ def check_C04(replay=None):
         res = tlc_mc("MC_Assembler", cfg, workers=8, coverage=False, timeout=1500)
         chk.add_mc(res, cfg)
     jobs = []
-    reps = 12 if thorough else 2
+    reps = 12 * SCALE if thorough else 2
     for k in range(reps):
         jobs.append(("verdict%d" % k, ["--fam", "verdict", "--n", 30 if thorough else 6, "--seed", chk.seed * 13 + k, "--layouts", 3, "--stack", 1]))
     jobs.append(("verdict_ns", ["--fam", "verdict", "--n", 4, "--seed", chk.seed, "--layouts", 2, "--stack", 0]))
@@ -406,7 +410,7 @@ DBG_ASSUME = ["observations are taken in --minimal mode through the cfg-gated ho
 def check_C03(replay=None):
     def jobs(chk, thorough):
         j = []
-        n = 400 if thorough else 40
+        n = 400 * SCALE if thorough else 40
         for k in range(4):
             j.append(("run%d" % k, ["--mode", "run", "--n", n // 4, "--seed", chk.seed * 11 + k]))
         j.append(("tiny_ex", ["--mode", "tiny", "--n", 300 if thorough else 60, "--seed", chk.seed] + (["--exhaustive"] if thorough else [])))
@@ -434,7 +438,7 @@ def _mc_dbg(kind):
 def _dbg_jobs(focus, quick_n=24, quick_per=4, enum_len=None, extra=None):
     def jobs(chk, thorough):
         j = []
-        n = quick_n * 8 if thorough else quick_n
+        n = quick_n * 8 * SCALE if thorough else quick_n
         per = quick_per + 2 if thorough else quick_per
         parts = 8 if thorough else 4
         for k in range(parts):
@@ -462,7 +466,7 @@ def _c09_cli_pairs(chk, thorough):
     both fed the program's input on stdin; standard output (line breaks aside) and exit status must agree (Trace_Cli!DbgPairOk)."""
     import random
     vlib.build(need_cli=True)
-    d, man = _files(chk, "exec", 40 if thorough else 10)
+    d, man = _files(chk, "exec", 40 * SCALE if thorough else 10)
     pure = ["step", "s", "step into 3", "si 2", "step into", "r", "registers", "p r0", "print ^", "print r7", "assembly", "a ^1", "break list", "bl", "echo hi", "echo a b",
             "help", "h", "continue", "c", "break add ^1", "break remove ^1", "ba x3001", "bogus", "", "step out"]
 
@@ -596,7 +600,7 @@ def check_C14(replay=None):
         jobs.append(("tok%d" % ph, ["gen", "cmd", "--mode", "tokens", "--len", L, "--stride", parts, "--phase", ph, "--seed", chk.seed]))
     jobs.append(("names", ["gen", "cmd", "--mode", "names", "--seed", chk.seed]))
     for k in range(4 if thorough else 1):
-        jobs.append(("rnd%d" % k, ["gen", "cmd", "--mode", "random", "--n", 3000 if thorough else 600, "--seed", chk.seed * 5 + k]))
+        jobs.append(("rnd%d" % k, ["gen", "cmd", "--mode", "random", "--n", 3000 * SCALE if thorough else 600, "--seed", chk.seed * 5 + k]))
 
     def gen(job):
         name, args = job
@@ -618,7 +622,7 @@ def check_C14(replay=None):
             chk.samples = [_slim_ev(e) for e in vlib.sample_lines(out, 14)[-2:]]
         os.remove(out)
     # transports
-    tev = _transport_events(chk, 60 if thorough else 12, chk.seed)
+    tev = _transport_events(chk, 60 * SCALE if thorough else 12, chk.seed)
     tpath = _wpath("c14_transport.ndjson")
     with open(tpath, "w") as f:
         for e in tev:
@@ -700,7 +704,7 @@ def check_C06(replay=None):
     chk.add_mc(res, "MC_Machine(loader)")
     events = []
     # (1) compile
-    d, man = _files(chk, "compile", 400 if thorough else 60)
+    d, man = _files(chk, "compile", 400 * SCALE if thorough else 60)
 
     def comp(c):
         dest = c["path"][:-4] + ".lc3"
@@ -713,7 +717,7 @@ def check_C06(replay=None):
         return {"ev": "compile", "tag": c["tag"] + ":" + ("absent", "short", "long")[pre], "ast": c["ast"], "stack": c["stack"], "code": code, "bytes": b, "src": c["src"]}
     events += parallel(comp, man, 8)
     # (2) run from source vs from object file
-    d2, man2 = _files(chk, "exec", 150 if thorough else 24)
+    d2, man2 = _files(chk, "exec", 150 * SCALE if thorough else 24)
 
     def pair(c):
         dest = c["path"][:-4] + ".lc3"
@@ -972,13 +976,13 @@ def check_C08(replay=None):
     old = bytes(range(251)) * 20          # longer than any object the cases produce
     jobs = [(c, dk) for c in man for dk in ("absent", "file", "longer", "devfull", "nodir")]
     # the shape of the destination's NAME and the state of stdout must not matter either (every 3rd source each)
-    jobs += [(c, dk) for i, c in enumerate(man) for dk in ("nonutf8", "longutf8", "absent-outfull", "file-outfull") if i % 3 == 0]
+    jobs += [(c, dk) for i, c in enumerate(man) for dk in ("nonutf8", "longutf8", "absent-outfull", "file-outfull") if thorough or i % 3 == 0]
     # a REGULAR destination that cannot be completely written: the process may not write a single byte to a regular file
     # (RLIMIT_FSIZE = 0, SIGXFSZ ignored: write() fails with EFBIG as it would with ENOSPC on a full disk)
-    jobs += [(c, dk) for i, c in enumerate(man) for dk in ("absent-fsize", "file-fsize") if i % 3 != 2]
+    jobs += [(c, dk) for i, c in enumerate(man) for dk in ("absent-fsize", "file-fsize") if thorough or i % 3 != 2]
     # ... and a stdout that stops accepting data AFTER the first message (a regular file at its size limit): what is printed once
     # the object is in place must not turn a finished compile into a failed one
-    jobs += [(c, dk) for i, c in enumerate(man) for dk in ("absent-msgfail", "file-msgfail") if i % 3 != 1]
+    jobs += [(c, dk) for i, c in enumerate(man) for dk in ("absent-msgfail", "file-msgfail") if thorough or i % 3 != 1]
 
     def atomic(job):
         c, dk = job
@@ -1164,7 +1168,7 @@ def check_C20(replay=None):
     for ph in range(parts):
         jobs.append(("enum%d" % ph, ["gen", "edit", "--mode", "enum", "--len", L, "--stride", parts, "--phase", ph, "--seed", chk.seed]))
     for k in range(4 if thorough else 2):
-        jobs.append(("rnd%d" % k, ["gen", "edit", "--mode", "random", "--n", 400 if thorough else 60, "--seed", chk.seed * 3 + k]))
+        jobs.append(("rnd%d" % k, ["gen", "edit", "--mode", "random", "--n", 400 * SCALE if thorough else 60, "--seed", chk.seed * 3 + k]))
 
     def gen(job):
         name, args = job
@@ -1218,7 +1222,7 @@ def check_C19(replay=None):
         raise vlib.ToolError("MC_Session without the reset should violate Pure (the model would be vacuous)")
     chk.states += sanity["distinct"]
     chk.transitions += sanity["generated"]
-    jobs = [("sess%d" % k, ["--fam", "session", "--n", 200 if thorough else 40, "--seed", chk.seed * 3 + k, "--stack", 1 if k != 1 else 0]) for k in range(4)]
+    jobs = [("sess%d" % k, ["--fam", "session", "--n", 200 * SCALE if thorough else 40, "--seed", chk.seed * 3 + k, "--stack", 1 if k != 1 else 0]) for k in range(4)]
     traces = _asm_jobs_run(chk, jobs)
     chk.distinct = max(chk.distinct, 2)
     chk.samples = [_slim(e) for e in vlib.sample_lines(traces[0], 2)]
@@ -1229,7 +1233,7 @@ def check_C19(replay=None):
 
 def check_C17(replay=None):
     def jobs(chk, thorough):
-        n = 400 if thorough else 60
+        n = 400 * SCALE if thorough else 60
         return [("view%d" % k, ["--mode", "view", "--n", n // 4, "--seed", chk.seed * 23 + k]) for k in range(4)]
     return _run_family("C17",
                        "session = arbitrary multi-label program (all statement forms, operand-less after operand-ful, .fill/.blkw/.stringz, colon labels, commas, comments with multi-byte characters, "
@@ -1277,7 +1281,7 @@ def check_C05(replay=None):
         jobs.append(("tok%d" % ph, ["--fam", "tokens", "--len", 4 if thorough else 3, "--stride", parts, "--phase", ph, "--seed", chk.seed]))
         jobs.append(("chr%d" % ph, ["--fam", "chars", "--len", 5 if thorough else 4, "--stride", parts * (6 if thorough else 1), "--phase", ph + chk.seed, "--seed", chk.seed]))
     for k in range(4):
-        jobs.append(("mut%d" % k, ["--fam", "mutate", "--n", 5000 if thorough else 500, "--seed", chk.seed * 9 + k]))
+        jobs.append(("mut%d" % k, ["--fam", "mutate", "--n", 5000 * SCALE if thorough else 500, "--seed", chk.seed * 9 + k]))
     jobs.append(("huge", ["--fam", "huge", "--seed", chk.seed]))
     jobs.append(("rawstr", ["--fam", "rawstrings", "--len", 5 if thorough else 4, "--seed", chk.seed]))
 
